@@ -199,7 +199,7 @@ pub trait GLWEEncryptPkDefault<BE: Backend> {
 
 impl<BE: Backend> GLWEEncryptPkDefault<BE> for Module<BE>
 where
-    Self: GLWEEncryptPkInternal<BE> + VecZnxDftBytesOf + SvpPPolBytesOf + VecZnxBigBytesOf + VecZnxNormalizeTmpBytes,
+    Self: GLWEEncryptPkInternal<BE> + VecZnxDftBytesOf + SvpPPolBytesOf + VecZnxBigBytesOf + VecZnxBigNormalizeTmpBytes,
     Scratch<BE>: ScratchAvailable,
 {
     fn glwe_encrypt_pk_tmp_bytes<A>(&self, infos: &A) -> usize
@@ -211,7 +211,7 @@ where
         let lvl_0: usize = self.bytes_of_svp_ppol(1);
         let lvl_1: usize =
             (self.bytes_of_vec_znx_dft(1, size) + self.bytes_of_vec_znx_big(1, size)).max(ScalarZnx::bytes_of(self.n(), 1));
-        let lvl_2: usize = self.vec_znx_normalize_tmp_bytes();
+        let lvl_2: usize = self.vec_znx_big_normalize_tmp_bytes();
 
         lvl_0 + lvl_1 + lvl_2
     }
